@@ -31,7 +31,8 @@ def patched(rec, targets):
     saved = []
     try:
         for owner, attr, before, after in targets:
-            orig = owner.__dict__.get(attr) if isinstance(owner, type) else getattr(owner, attr, None)
+            had = attr in getattr(owner, "__dict__", {})
+            orig = getattr(owner, attr, None)      # resolves inherited methods too (the wrapper is then set on `owner` only)
             if orig is None or not callable(orig):
                 rec.missing.append(f"{getattr(owner, '__name__', owner)}.{attr}")
                 continue
@@ -53,12 +54,15 @@ def patched(rec, targets):
                     return result
                 return wrapper
 
-            saved.append((owner, attr, orig))
+            saved.append((owner, attr, orig, had))
             setattr(owner, attr, make())
         yield rec
     finally:
-        for owner, attr, orig in reversed(saved):
-            setattr(owner, attr, orig)
+        for owner, attr, orig, had in reversed(saved):
+            if had:
+                setattr(owner, attr, orig)
+            else:
+                delattr(owner, attr)
 
 
 # ---- ready-made observation callbacks -----------------------------------------------------------
@@ -75,6 +79,8 @@ def heap_targets():
     def before_remove(rec, args, kwargs):
         h = args[0]
         gray = [h.cost[q] for q in range(h.size) if h.color[q] == c.GRAY]
+        if any(v != v for v in gray):      # NaN keys have no order: this removal is not judged
+            gray = []
         h.__dict__["_opfmon_expect"] = (min(gray) if h.policy == "min" else max(gray)) if gray else None
 
     def after_remove(rec, args, kwargs, result):
@@ -85,7 +91,7 @@ def heap_targets():
             return
         rec.add("heap_remove")
         # note: models overwrite h.cost[p] of a removed root *after* remove returns, so reading here is exact
-        if exp is not None and h.cost[result] != exp:
+        if exp is not None and exp == exp and h.cost[result] == h.cost[result] and h.cost[result] != exp:   # NaN keys: no order, not judged
             rec.add("heap_live_violation", f"remove returned {result} with cost {h.cost[result]!r}, extremal GRAY cost was {exp!r} (policy {h.policy})")
 
     return [(Heap, "update", before_update, None), (Heap, "remove", before_remove, after_remove)]
